@@ -371,37 +371,63 @@ class RandomWalk:
         return self.rng.choice(others)
 
 
-def dfs(run, bound, shard=0, nshards=1, max_runs=None):
-    """Depth-first enumeration of all choice sequences with at most `bound`
-    preemptions.  run(prefix) executes one schedule with the Forced strategy
-    and returns its `decisions` list.  Every schedule is generated exactly
-    once: a child deviates from its parent's recorded path at an index not
-    below the parent's prefix length.  Shards partition by the index of the
-    first deviation from the non-preemptive default path (the default path
-    itself belongs to shard 0; every shard has to run it to discover the
-    decision points, `run` is told with own=False when the run is not the
-    shard's own).  Returns (number of own runs, complete?)."""
-    stack = [()]
+def _children(prefix, decisions, bound):
+    """Schedules that follow `decisions` up to some index >= len(prefix) and
+    take another thread there: (preemptions used, new prefix)."""
+    choices = [d[2] for d in decisions]
+    out = []
+    for i in range(len(decisions) - 1, len(prefix) - 1, -1):
+        enabled, cur, chosen, before = decisions[i]
+        for alt in enabled:
+            if alt == chosen:
+                continue
+            cost = 1 if (cur is not None and alt != cur) else 0
+            if before + cost <= bound:
+                out.append((before + cost, tuple(choices[:i]) + (alt,)))
+    return out
+
+
+def dfs(run, bound, shard=0, nshards=1, split_target=None):
+    """Enumeration of all choice sequences with at most `bound` preemptions.
+    run(prefix, own) executes one schedule with the Forced strategy (the
+    prefix, then non-preemptive defaults) and returns its `decisions` list, or
+    None to stop.  Every schedule is generated exactly once: a child deviates
+    from its parent's recorded path at an index not below the parent's prefix
+    length.
+
+    Sharding: every shard first expands the same top of the tree (largest
+    subtrees first: fewest preemptions used, shortest prefix) until the
+    frontier has `split_target` open prefixes; these common runs are dealt
+    round-robin for the accounting (own=True in exactly one shard).  The
+    frontier, in a deterministic order, is then dealt round-robin and each
+    shard enumerates its subtrees depth-first.
+    Returns (number of own runs, complete?)."""
+    import heapq
+    if split_target is None:
+        split_target = 60 * nshards if nshards > 1 else 0
+    heap = [(0, 0, ())]
     runs = 0
-    while stack:
-        prefix = stack.pop()
-        own = bool(prefix) or shard == 0
+    k = 0
+    while heap and len(heap) < split_target:
+        used, _, prefix = heapq.heappop(heap)
+        own = (k % nshards) == shard
+        k += 1
         decisions = run(prefix, own)
-        if own:
-            runs += 1
         if decisions is None:
             return runs, False
-        choices = [d[2] for d in decisions]
-        for i in range(len(decisions) - 1, len(prefix) - 1, -1):
-            enabled, cur, chosen, before = decisions[i]
-            if not prefix and i % nshards != shard:
-                continue
-            for alt in enabled:
-                if alt == chosen:
-                    continue
-                cost = 1 if (cur is not None and alt != cur) else 0
-                if before + cost <= bound:
-                    stack.append(tuple(choices[:i]) + (alt,))
-        if max_runs is not None and runs >= max_runs:
-            return runs, not stack
+        if own:
+            runs += 1
+        for u, child in _children(prefix, decisions, bound):
+            heapq.heappush(heap, (u, len(child), child))
+    items = sorted(heap)
+    for _, _, root in items[shard::nshards]:
+        stack = [root]
+        while stack:
+            prefix = stack.pop()
+            decisions = run(prefix, True)
+            if decisions is None:
+                return runs, False
+            runs += 1
+            for u, child in _children(prefix, decisions, bound):
+                stack.append(child)
     return runs, True
